@@ -74,7 +74,9 @@ HARNESS h_argmove_x64_int() {
 }
 
 // ---- vector-typed destination <- float / vector
-template<bool kKnown>
+// AVX is a template parameter: the instruction-id table of the helper is then indexed by a constant (CBMC mis-read the table with a
+// symbolic index - counterexamples that did not replay natively).
+template<bool kKnown, bool AVX>
 static void argmove_fp() {
   uint32_t dk = nondet_u8() % 3, sk = nondet_u8() % 5;
   TypeId dt = dk == 0 ? TypeId::kFloat32x1 : dk == 1 ? TypeId::kFloat64x1 : TypeId::kFloat32x4;
@@ -85,7 +87,7 @@ static void argmove_fp() {
 #if KF_C06I
   if (kKnown) V_ASSUME(convert); else V_ASSUME(!convert);
 #endif
-  uint32_t did = nondet_u8() & 15, sid = nondet_u8() & 15; bool src_mem = nondet_bool(), avx = nondet_bool();
+  uint32_t did = nondet_u8() & 15, sid = nondet_u8() & 15; bool src_mem = nondet_bool(); constexpr bool avx = AVX;
   Reg dst(OperandSignature{RegTraits<RegType::kVec128>::kSignature}, did), sreg(OperandSignature{RegTraits<RegType::kVec128>::kSignature}, sid);
   x86::Mem smem = x86::ptr(x86::rsp, int32_t(nondet_u16() & 0x7FF0));
   x86::EmitHelper h = make_helper(avx);
@@ -119,5 +121,14 @@ static void argmove_fp() {
 #endif
   }
 }
-HARNESS h_argmove_x64_fp() { argmove_fp<false>(); }
-HARNESS h_argmove_x64_kf_C06I() { argmove_fp<true>(); }
+HARNESS h_argmove_x64_fp() { if (nondet_bool()) argmove_fp<false, true>(); else argmove_fp<false, false>(); }
+// The full float/vector claim: while C06I or C06J is listed every input lies in one of the two regions, so nothing is claimed
+// (the harness then consists of its witness only); with both repaired and unlisted this is the main harness.
+HARNESS h_argmove_x64_fp_full() {
+#if KF_C06I || KF_C06J
+  V_WITNESS("nothing-claimed-while-C06I-or-C06J-is-listed");
+#else
+  if (nondet_bool()) argmove_fp<false, true>(); else argmove_fp<false, false>();
+#endif
+}
+HARNESS h_argmove_x64_kf_C06I() { if (nondet_bool()) argmove_fp<true, true>(); else argmove_fp<true, false>(); }
